@@ -132,6 +132,18 @@ def long_machines():
     cnt[(1, O)] = (0, O, 'L')
     choice = tuple(cnt.get((q, a)) for q in range(2) for a in range(3))
     yield 'binary counter', ('tm', 2, 3, choice, 0), {'gamma': ['0', '1', '_'], 'sigma': ['0', '1']}, ['0' * n for n in (1, 3, 5, 6)] + ['0110', '00000001']
+    # shifter (gamma 0, 1, blank; input 0^k 1^m): erases the zeros, then moves the block of ones to the left end one cell per
+    # round trip (the left end is recognised by a left move that stays put): the data travels across blanks it leaves behind
+    Z, O, B3 = 0, 1, 2
+    QA6 = 6
+    sh = {(0, Z): (0, B3, 'R'), (0, O): (1, O, 'L'), (0, B3): (QA6, B3, 'R'),
+          (1, B3): (5, O, 'L'), (1, O): (QA6, O, 'R'),
+          (5, O): (QA6, O, 'R'), (5, B3): (2, B3, 'R'),
+          (2, O): (2, O, 'R'), (2, B3): (3, B3, 'L'),
+          (3, O): (4, B3, 'L'),
+          (4, O): (4, O, 'L'), (4, B3): (5, O, 'L')}
+    choice = tuple(sh.get((q, a)) for q in range(6) for a in range(3))
+    yield 'shifter', ('tm', 6, 3, choice, 0), {'gamma': ['0', '1', '_'], 'sigma': ['0', '1']}, ['0' * k + '1' * m for (k, m) in ((0, 4), (3, 0), (5, 3), (17, 62), (48, 30), (40, 60))]
     # runner: moves right over a long input and accepts at the first blank (head far beyond cell 256)
     run = {(0, 0): (0, 0, 'R'), (0, 1): (1, 1, 'R')}
     choice = tuple(run.get((q, a)) for q in range(1) for a in range(2))
@@ -175,6 +187,56 @@ def t_long(acc, which=None):
             acc.nontrivial += 1
 
 
+def t_long_space(acc, w, g, n_in, budget, shard, nshard, stride=1, offset=0):
+    """Wave 6: every small machine on ONE long input (a^n_in) with a budget of several thousand steps: halting runs longer
+    than any sampling interval of a loop detector, produced by the smallest machines."""
+    from gambatools.tm_algorithms import tm_accepts_word, tm_simulate_word
+    for idx, spec in tm.tms(w, g):
+        if idx % stride != offset % stride or (idx // stride) % nshard != shard:
+            continue
+        Q, sigma, gamma, delta, q0, qa, qr, blank = tm.parts(spec, '_')
+        word = sigma[0] * n_in
+        exp, confs = tm.run(delta, q0, qa, qr, blank, word, budget)
+        steps = len(confs) - 1
+        acc.states += 1
+        if steps < 300:
+            continue                  # short runs are the business of the exhaustive layers
+        acc.c['machines_running_300_steps_or_more'] += 1
+        if exp is not None:
+            acc.nontrivial += 1
+            acc.mx('max_steps_of_a_halting_run', steps)
+        T = tm.build(spec, '_')
+        rp = {'fn': 'mc.props.c11:one_long', 'mode': 'plain', 'params': {'spec': spec, 'n_in': n_in, 'budget': budget}}
+        inst = {'tm': tm.show(spec, '_'), 'word': '%s^%d' % (sigma[0], n_in), 'max_steps': budget, 'steps_of_the_run': steps}
+        ok, got = core.lib_call(acc, 'tm_accepts_word', inst, tm_accepts_word, T, word, budget, repro=rp)
+        acc.transitions += 1
+        if ok:
+            acc.evals += 1
+            acc.validated += 1
+            if got is not exp:
+                acc.viol('tm_accepts_word', 'verdict differs from the Sipser step semantics', inst, repro=rp, observed=got, expected=exp)
+        if idx % 5 == 0:
+            ok, tr = core.lib_call(acc, 'tm_simulate_word', inst, tm_simulate_word, T, word, budget, repro=rp)
+            acc.transitions += 1
+            if ok:
+                acc.evals += 1
+                with core.inspecting(acc, 'tm_simulate_word', inst, repro=rp):
+                    msg = judge_trace(tr, confs, exp, budget, word, q0, qa, qr, blank)
+                    if msg:
+                        acc.viol('tm_simulate_word', msg, inst, repro=rp)
+
+
+def one_long(acc, spec, n_in, budget):
+    spec = tup(spec)
+    # replay: a one-machine "space"
+    orig = tm.tms
+    try:
+        tm.tms = lambda w, g: iter([(0, spec)])
+        t_long_space(acc, spec[1], spec[2], n_in, budget, 0, 1)
+    finally:
+        tm.tms = orig
+
+
 def t_space(acc, w, g, L, shard, nshard, stride=1, offset=0, budgets=BUDGETS, blank='_'):
     if w == 0:
         for spec in tm.tm_halting_start(g):
@@ -192,7 +254,9 @@ def plan(tier, seed):
     def add(w, g, L, ns, stride=1, budgets=BUDGETS, blank='_'):
         tasks.extend(('plain', P, {'w': w, 'g': g, 'L': L, 'shard': s, 'nshard': ns, 'stride': stride, 'offset': seed, 'budgets': list(budgets), 'blank': blank}) for s in range(ns))
 
-    tasks.extend(('plain', 'mc.props.c11:t_long', {'which': i_}) for i_ in range(3))
+    tasks.extend(('plain', 'mc.props.c11:t_long', {'which': i_}) for i_ in range(4))
+    tasks.extend(('plain', 'mc.props.c11:t_long_space', {'w': 2, 'g': 2, 'n_in': 1100, 'budget': 4500, 'shard': s_, 'nshard': 32, 'stride': 16 if tier == 'quick' else 1, 'offset': seed}) for s_ in range(32))
+    tasks.extend(('plain', 'mc.props.c11:t_long_space', {'w': 1, 'g': 3, 'n_in': 1100, 'budget': 4500, 'shard': s_, 'nshard': 16, 'stride': 4 if tier == 'quick' else 1, 'offset': seed}) for s_ in range(16))
     add(0, 2, 2, 1)
     add(0, 3, 1, 1, blank='□')
     add(1, 2, 3, 1)
@@ -211,4 +275,4 @@ def plan(tier, seed):
         bounds = 'TM(0,g), TM(1,2), TM(1,3), TM(2,2) (83 521) x words <= 3; budgets 0..8 (+ larger budgets on a stride)'
     return {'tasks': tasks, 'bounds': {'spaces': bounds}, 'exhaustive': True,
             'rule': 'every machine with w working states and g tape symbols (each delta cell undefined or (target, write, L/R)) x every input word x every step budget; verdict and configuration sequence vs a 15-line Sipser step function; non-trivial = machine on which at least two of accept / reject / undecided occur',
-            'assumptions': ['head position after an implicit reject is not specified and not compared', 'tapes compared modulo trailing blanks', 'every machine also with delta inserted symbol by symbol, with working states named a, b / q1, q10, and with blanks _, □, # alternating within one process', 'wave 5: three long-running machines (a^n b^n by crossing off up to n = 20, a binary counter, a runner over up to 700 cells): runs of up to several thousand steps, budgets around the run length and around 128 / 256']}
+            'assumptions': ['head position after an implicit reject is not specified and not compared', 'tapes compared modulo trailing blanks', 'every machine also with delta inserted symbol by symbol, with working states named a, b / q1, q10, and with blanks _, □, # alternating within one process', 'wave 5: four long-running machines (a^n b^n by crossing off up to n = 20, a binary counter, a shifter that moves its data across blanks, a runner over up to 700 cells): runs of up to several thousand steps, budgets around the run length and around 128 / 256', 'wave 6: every TM(2,2) (quick: stride 1/16) and TM(1,3) (quick: 1/4) machine on a^1100 with a budget of 4500 steps (runs of 300+ steps are compared)']}
